@@ -387,6 +387,60 @@ def t_cmpxform(facts, res, tier):
                         break
     if n_paths == 0:
         raise AnchorMissing("generate_condition_ex: no path binds `left`, `right` and `operator`")
+    # every hand-off of the comparison (to the 16-bit comparison and to the branch emitters) passes an
+    # operator that, applied to the operands handed over, still means `op(l, r) XOR negate`
+    handoff = {}
+    for cname in ("generate_condition_16bits", "generate_branch_instruction", "generate_branch_instruction_alt"):
+        cf = facts.fn(cname, GEN_QUAL)
+        ps = [p for p in cf["params"] if p["name"] != "self"]
+        handoff[cname] = ([i for i, p in enumerate(ps) if norm_ty(p["ty"]) == "Operation"], [i for i, p in enumerate(ps) if norm_ty(p["ty"]) == "ExprType"])
+    seen2 = set()
+    for kind, value, st in fn_paths(facts, fn):
+        env = st.env
+        lv, rv = env.get("left"), env.get("right")
+        if not (isinstance(lv, Sym) and isinstance(rv, Sym)) or {lv.key, rv.key} != {l, r}:
+            continue
+        negs = domain_of(st, Sym(pneg[0], "bool"), facts) or {True, False}
+        ops = (domain_of(st, Sym(pop[0], "Operation"), facts) or set(cmp_ops)) & set(cmp_ops)
+        for e in st.events:
+            if e["kind"] != "call" or e["callee"] not in handoff:
+                continue
+            oi, ei = handoff[e["callee"]]
+            if not oi or oi[0] >= len(e["args"]):
+                continue
+            xv = e["args"][oi[0]]
+            # operands handed over: explicit for the 16-bit comparison, (left, right) for the branch emitters
+            if len(ei) >= 2:
+                a0, a1 = e["args"][ei[0]], e["args"][ei[1]]
+                if not (isinstance(a0, Sym) and isinstance(a1, Sym) and {a0.key, a1.key} == {l, r}):
+                    continue
+                swapped = a0.key == r
+            else:
+                swapped = lv.key == r
+            for neg in sorted(negs):
+                for op in sorted(ops):
+                    if isinstance(xv, EnumV):
+                        final = xv.variant
+                    elif isinstance(xv, Sym) and xv.key == pop[0]:
+                        final = op
+                    else:
+                        continue
+                    if final not in C_CMP:
+                        continue
+                    key = "T-CMPXFORM:handoff:%s:%s:%s:%s" % (e["callee"], op, "negate" if neg else "plain", "swapped" if swapped else "direct")
+                    bad = False
+                    for (a, b) in ORDERINGS:
+                        want = truth3(op, a, b) != neg
+                        got = truth3(final, b, a) if swapped else truth3(final, a, b)
+                        if want != got:
+                            bad = True
+                    if key not in seen2:
+                        seen2.add(key)
+                        res.inst(key, True, {"callee": e["callee"], "op": op, "negate": neg, "operands_swapped": swapped, "operator_passed": final})
+                    if bad and key + ":bad" not in seen2:
+                        seen2.add(key + ":bad")
+                        res.fail(key, facts.where(fn, e["node"]), "generate_condition_ex hands the comparison to %s with operator %s while the operands are %s: for op=%s negate=%s that is not the requested comparison (the operator passed must be the one computed for the swapped operands)" % (
+                            e["callee"], final, "swapped" if swapped else "in order", op, neg))
     # check_branches inversion map
     cb = facts.fn("check_branches", "AssemblyCode")
     cmaps = enum_maps(facts, cb)
